@@ -38,6 +38,7 @@ def getResp (j : Json) : Resp :=
     gen := (match getStr j "gen" with
       | "yields" => .yields | "empty" => .empty | "raises" => .raises (fcOf (getStr j "fc")) | _ => .notGen),
     serializeFails := getBool j "serFails",
+    serFailClass := (match getStr j "serFc" with | "" => .server | x => fcOf x),
     chunks := natList j "chunks",
     sized := getBool j "sized" }
 
@@ -50,6 +51,7 @@ def getReq (j : Json) : Req :=
     contentLength := optText j "cl", docLen := getNat j "docLen", faultLen := getNat j "faultLen",
     intended := (match getStr j "intended" with
       | "malformed" => .malformed | "unknown" => .unknownMethod | "validation" => .validationError
+      | "inputHandlerFails" => .inputHandlerFails
       | "userFault" => .userFault (fcOf (getStr j "fc")) (optNat j "preset")
       | _ => .success (getResp j)),
     onReturn := (match j.getObjVal? "onReturn" with
